@@ -13,7 +13,6 @@ import (
 	"errors"
 	"fmt"
 	"io"
-	"math/rand"
 	"reflect"
 	"sort"
 	"sync"
@@ -323,9 +322,11 @@ type mock struct {
 
 func (m *mock) BindLocalStream(_ *interceptor.StreamInfo, w interceptor.RTPWriter) interceptor.RTPWriter {
 	return interceptor.RTPWriterFunc(func(h *rtp.Header, p []byte, a interceptor.Attributes) (int, error) {
-		m.mu.Lock()
-		m.wcount++
-		m.mu.Unlock()
+		if _, ok := a[markerKey{}]; ok { // application-driven calls only (not retransmissions from goroutines)
+			m.mu.Lock()
+			m.wcount++
+			m.mu.Unlock()
+		}
 
 		return w.Write(h, p, a)
 	})
@@ -371,7 +372,19 @@ func (quietFactory) NewLogger(string) logging.LeveledLogger {
 
 func sentinel(id int) error { return fmt.Errorf("sentinel-%d", id) } //nolint:err113
 
+type startedRecorder struct {
+	stats.Recorder
+	once sync.Once
+	ch   chan struct{}
+}
+
+func (s *startedRecorder) Start() {
+	s.Recorder.Start()
+	s.once.Do(func() { close(s.ch) })
+}
+
 type built struct {
+	started []chan struct{}
 	mocks  []*mock
 	getter stats.Getter
 	statsIdx int
@@ -448,7 +461,13 @@ func factoryOf(m memberIn, b *built, idx int) (interceptor.Factory, error) { //n
 	case 8:
 		return rtpfb.NewInterceptor(rtpfb.WithLoggerFactory(lf))
 	case 9:
-		f, err := stats.NewInterceptor(stats.WithLoggerFactory(lf))
+		f, err := stats.NewInterceptor(stats.WithLoggerFactory(lf),
+			stats.SetRecorderFactory(func(ssrc uint32, clockRate float64) stats.Recorder {
+				sr := &startedRecorder{Recorder: stats.C01NewRecorder(ssrc, clockRate, lf), ch: make(chan struct{})}
+				b.started = append(b.started, sr.ch)
+
+				return sr
+			}))
 		if err != nil {
 			return nil, err
 		}
@@ -558,6 +577,7 @@ type wobs struct {
 
 type robs struct {
 	di     int
+	rawLen int64
 	amodeZ int64
 	n      int
 	errs   []int64
@@ -586,14 +606,37 @@ func errIDs(err error, sent map[int]error) []int64 {
 	if err == nil {
 		return nil
 	}
-	out := []int64{}
-	for id, s := range sent {
-		if errors.Is(err, s) {
-			out = append(out, int64(id))
+	set := map[int64]bool{}
+	var walk func(e error)
+	walk = func(e error) {
+		if u, ok := e.(interface{ Unwrap() []error }); ok { //nolint:errorlint
+			for _, x := range u.Unwrap() {
+				walk(x)
+			}
+
+			return
+		}
+		hit := false
+		for id, s := range sent {
+			if errors.Is(e, s) {
+				set[int64(id)] = true
+				hit = true
+			}
+		}
+		if !hit {
+			set[900] = true
 		}
 	}
-	if len(out) == 0 {
-		return []int64{900}
+	walk(err)
+	// errors.Is on the whole value must agree with the leaves
+	for id, s := range sent {
+		if errors.Is(err, s) {
+			set[int64(id)] = true
+		}
+	}
+	out := []int64{}
+	for id := range set {
+		out = append(out, id)
 	}
 	sort.Slice(out, func(i, j int) bool { return out[i] < out[j] })
 
@@ -710,6 +753,9 @@ func runCase(in caseIn) (res *result) { //nolint:cyclop,gocyclo,gocognit,maintid
 		return rtpScript(b, a)
 	}})
 
+	for _, ch := range b.started {
+		<-ch
+	}
 	// ---- RTP writes
 	for i, w := range in.Writes {
 		h := w.Pkt.H.build()
@@ -731,7 +777,7 @@ func runCase(in caseIn) (res *result) { //nolint:cyclop,gocyclo,gocognit,maintid
 		res.wops = append(res.wops, o)
 	}
 	// ---- NACK feedback through the chain (responder retransmits asynchronously)
-	buf := make([]byte, 1500)
+	buf := make([]byte, 2048)
 	for _, seqs := range in.Nacks {
 		pk := &rtcp.TransportLayerNack{SenderSSRC: 9, MediaSSRC: c.SSRC, Nacks: rtcp.NackPairsFromSequenceNumbers(seqs)}
 		raw, _ := pk.Marshal()
@@ -814,7 +860,7 @@ func runCase(in caseIn) (res *result) { //nolint:cyclop,gocyclo,gocognit,maintid
 			}
 			snap := append([]byte{}, buf...)
 			n, attr, rerr := rd.Read(buf, ain)
-			o := robs{n: n, errs: errIDs(rerr, b.sentinels), bytes: true}
+			o := robs{n: n, errs: errIDs(rerr, b.sentinels), bytes: true, rawLen: int64(len(raw))}
 			m := len(raw)
 			if !bytes.Equal(buf[:m], raw) || !bytes.Equal(buf[m:], snap[m:]) {
 				o.bytes = false
@@ -825,7 +871,7 @@ func runCase(in caseIn) (res *result) { //nolint:cyclop,gocyclo,gocognit,maintid
 				if pk, perr := rtcp.Unmarshal(raw); perr == nil && len(raw) > 0 {
 					ks := []int64{}
 					for _, p := range pk {
-						ks = append(ks, int64(p.(interface{ Header() rtcp.Header }).Header().Type)) //nolint:forcetypeassert
+						ks = append(ks, kindOf(p))
 					}
 					o.di = res.tbl.rtcp(ks, 1000+i)
 				}
@@ -914,11 +960,19 @@ func runCase(in caseIn) (res *result) { //nolint:cyclop,gocyclo,gocognit,maintid
 
 	// let the feedback loops tick at least twice, then take counts and close
 	time.Sleep(3 * tick)
-	if b.getter != nil && b.statsIdx >= 0 {
+	statsIn := int64(-1)
+	if b.getter != nil {
 		if st := b.getter.Get(c.SSRC); st != nil {
-			res.counts = append(res.counts,
-				[3]int64{int64(b.statsIdx), 0, int64(st.OutboundRTPStreamStats.PacketsSent)}, //nolint:gosec
-				[3]int64{int64(b.statsIdx), 1, int64(st.InboundRTPStreamStats.PacketsReceived)}) //nolint:gosec
+			statsIn = int64(st.InboundRTPStreamStats.PacketsReceived) //nolint:gosec
+		}
+	}
+	mi := 0
+	for i, m := range flatten(in.Members) {
+		if m.Kind == 15 {
+			b.mocks[mi].mu.Lock()
+			res.counts = append(res.counts, [3]int64{int64(i), 0, int64(b.mocks[mi].wcount)})
+			b.mocks[mi].mu.Unlock()
+			mi++
 		}
 	}
 	chain.UnbindLocalStream(info)
@@ -949,6 +1003,8 @@ func runCase(in caseIn) (res *result) { //nolint:cyclop,gocyclo,gocognit,maintid
 		switch {
 		case c.RtxSSRC != 0 && c.RtxPT != 0 && cl.h.SSRC == c.RtxSSRC && cl.h.PayloadType == c.RtxPT:
 		case cl.h.SSRC == c.SSRC && bytes.Equal(tr.sent[cl.h.SequenceNumber], cl.payload):
+		case c.FecSSRC != 0 && c.FecPT != 0 && cl.h.SSRC == c.FecSSRC && cl.h.PayloadType == c.FecPT:
+			// repair packet for a retransmission that passed a FEC encoder below the responder
 		default:
 			res.flags[0]++
 		}
@@ -968,10 +1024,8 @@ func runCase(in caseIn) (res *result) { //nolint:cyclop,gocyclo,gocognit,maintid
 			okReads++
 		}
 	}
-	for _, ct := range res.counts {
-		if ct[1] == 1 && ct[2] > int64(okReads) {
-			res.flags[3]++
-		}
+	if statsIn > int64(okReads) {
+		res.flags[3]++
 	}
 
 	return res
@@ -1136,4 +1190,27 @@ func len0(op readIn, o robs) int64 {
 	}
 
 	return o.rawLen
+}
+
+func kindOf(p rtcp.Packet) int64 {
+	switch p.(type) {
+	case *rtcp.SenderReport:
+		return 200
+	case *rtcp.ReceiverReport:
+		return 201
+	case *rtcp.SourceDescription:
+		return 202
+	case *rtcp.Goodbye:
+		return 203
+	case *rtcp.TransportLayerNack:
+		return 205
+	case *rtcp.PictureLossIndication:
+		return 206
+	case *rtcp.TransportLayerCC:
+		return 215
+	case *rtcp.CCFeedbackReport:
+		return 211
+	}
+
+	return 299
 }
